@@ -411,7 +411,8 @@ def scen_c18(binary):
             s.materialize(root)
             big = s.versions[0]["big.txt"][0]
             open(os.path.join(root, "patches", "p0.patch"), "w").write(udiff(big, big.replace("big line 004000", "BIG LINE"), "a/big.txt", "b/big.txt"))
-            open(os.path.join(root, "series"), "w").write("p0.patch\n" + open(os.path.join(root, "series")).read())
+            rest = open(os.path.join(root, "series")).read()
+            open(os.path.join(root, "series"), "w").write("p0.patch\n" + rest)
             p = subprocess.run(["bash", "-c", "trap '' XFSZ; ulimit -f 16; exec \"$0\" push -d \"$1\" -a --threads %s --backup never" % threads, binary, root],
                                capture_output=True, text=True, timeout=120)
             ap = os.path.join(root, ".pc", "applied-patches")
@@ -449,6 +450,35 @@ def scen_c16(binary):
             got = (open(os.path.join(w, "x", "f.txt")).read(), open(os.path.join(w, "g.txt")).read(), open(os.path.join(w, "h.txt")).read())
             if rc != 0 or got != ("ONE\nTWO\n", "A\n", "new\n") or os.path.exists(os.path.join(w, "h.txt.orig")):
                 rc_all |= fail("threads=%s: per-patch -p/-R or old/new name resolution wrong: exit %d %r" % (threads, rc, got))
+            shutil.rmtree(w, ignore_errors=True)
+    finally:
+        shutil.rmtree(root, ignore_errors=True)
+    # history-dependent name choice: the in-memory view (deleted / created earlier in this run) overrides the disk
+    root = tempfile.mkdtemp()
+    try:
+        os.makedirs(os.path.join(root, "patches"))
+        open(os.path.join(root, "del.txt"), "w").write("one\ntwo\n")
+        P = {"01.patch": "--- a/del.txt\n+++ /dev/null\n@@ -1,2 +0,0 @@\n-one\n-two\n",
+             "02.patch": "--- a/del.txt\n+++ b/made.txt\n@@ -0,0 +1 @@\n+alpha\n",
+             "03.patch": "--- /dev/null\n+++ b/fresh.txt\n@@ -0,0 +1 @@\n+x\n",
+             "04.patch": "--- a/fresh.txt\n+++ b/other.txt\n@@ -1 +1 @@\n-x\n+y\n"}
+        for k, v in P.items():
+            open(os.path.join(root, "patches", k), "w").write(v)
+        open(os.path.join(root, "series"), "w").write("".join(k + "\n" for k in sorted(P)))
+        for tag, runs in (("one run, 1 thread", [["-a", "--threads", "1"]]), ("one run, 2 threads", [["-a", "--threads", "2"]]),
+                          ("split 2+rest", [["2", "--threads", "1"], ["-a", "--threads", "1"]]), ("split 1+rest, 2 threads", [["1", "--threads", "2"], ["-a", "--threads", "2"]])):
+            w = root + ".h"
+            shutil.copytree(root, w)
+            rc = 0
+            for a in runs:
+                r, out = push(binary, w, a + ["--backup", "always"])
+                rc |= r
+            def rd(n):
+                pth = os.path.join(w, n)
+                return open(pth).read() if os.path.exists(pth) else None
+            got = (rd("del.txt"), rd("made.txt"), rd("fresh.txt"), rd("other.txt"))
+            if rc != 0 or got != (None, "alpha\n", "y\n", None):
+                rc_all |= fail("%s: name choice ignores what earlier patches of the run did (deleted -> new name, created -> old name): exit %d del/made/fresh/other=%r" % (tag, rc, got))
             shutil.rmtree(w, ignore_errors=True)
     finally:
         shutil.rmtree(root, ignore_errors=True)
